@@ -114,10 +114,14 @@ func Spell(key []byte, s Spelling) string {
 // CounterBoundaries are the anchor points of the counter generator.
 var CounterBoundaries = []uint64{0, 1 << 31, 1 << 32, 1 << 63, 1<<64 - 1}
 
-// Counter draws a 64-bit counter: small, around 2^31 / 2^32 / 2^63, near the top, or uniform.
+// Counter draws a 64-bit counter: small, around 2^31 / 2^32 / 2^63, around m*2^(8k) (a byte of the message carries), near the top, or uniform.
 func Counter() *rapid.Generator[uint64] {
 	return rapid.Custom(func(t *rapid.T) uint64 {
-		switch rapid.IntRange(0, 5).Draw(t, "ctrKind") {
+		switch rapid.IntRange(0, 6).Draw(t, "ctrKind") {
+		case 6: // a byte of the 8-byte message carries: m * 2^(8k) +- a few
+			k := uint(rapid.IntRange(1, 7).Draw(t, "ctrCarryByte")) * 8
+			m := rapid.Uint64Range(1, 255).Draw(t, "ctrCarryM")
+			return m<<k + uint64(int64(rapid.IntRange(-13, 13).Draw(t, "ctrCarryDelta")))
 		case 0:
 			return uint64(rapid.IntRange(0, 12).Draw(t, "ctrSmall"))
 		case 1, 2:
